@@ -16,7 +16,7 @@ class TooBig(Exception):
 
 def strip_labels(norm):
     """what the library searches in: the normalised text without #labels"""
-    return re.sub("#[a-zA-Z0-9_-]+", "", norm).strip()
+    return re.sub(r"\s+", " ", re.sub("#[a-zA-Z0-9_-]+", "", norm)).strip()
 
 
 def all_matches(L, txt):
